@@ -693,3 +693,79 @@ def total_line(fam, args):
     except Exception as e:
         return dict(violated=True, observed="EXC:%s: %s" % (type(e).__name__, e), detail="%r raised %s (written so far: %r)" % (a, type(e).__name__, out.getvalue()))
     return dict(violated=False, observed=out.getvalue(), detail="ok")
+
+
+_SUBPROC = r'''
+import io, sys, json, logging
+sys.path.insert(0, %(repo)r)
+logging.disable(logging.CRITICAL)
+from netconan.anonymize_files import FileAnonymizer
+args = json.loads(%(args)r)
+for pre in args.get("pre", []):
+    FileAnonymizer(**pre)
+fa = FileAnonymizer(**args["kw"])
+o = io.StringIO()
+fa.anonymize_io(io.StringIO("".join(args["lines"])), o)
+sys.stdout.write(json.dumps(o.getvalue()))
+'''
+
+
+def _in_subprocess(lines, kw, hashseed, pre=()):
+    import json
+    import os
+    import subprocess
+    import sys
+    code = _SUBPROC % dict(repo=os.environ.get("VF_REPO", "/repo"), args=json.dumps(dict(lines=lines, kw=kw, pre=list(pre))))
+    env = dict(os.environ, PYTHONHASHSEED=str(hashseed))
+    r = subprocess.run([sys.executable, "-c", code], capture_output=True, text=True, env=env, timeout=120)
+    if r.returncode != 0:
+        return "EXC:" + r.stderr[-300:]
+    return json.loads(r.stdout)
+
+
+@register("determinism")
+def determinism(fam, args):
+    """C13: the same input, salt and options in separate interpreter processes with different hash seeds -> identical bytes"""
+    outs = [_in_subprocess(args["lines"], args["kw"], seed) for seed in (1, 2, 3, 4, 5, 6)]
+    return dict(violated=len(set(outs)) > 1, observed=sorted(set(outs))[:3], detail="%d distinct outputs over 6 processes" % len(set(outs)))
+
+
+@register("earlier_anonymizer")
+def earlier_anonymizer(fam, args):
+    what, word = args["what"], args.get("word")
+    pre = [dict(anon_pwd=True, anon_ip=False, salt="other", reserved_words=[word])] if what == "reserved" else \
+        [dict(anon_pwd=True, anon_ip=True, salt="other", sensitive_words=["lax", "attle"])]
+    a = _in_subprocess(args["lines"], args["kw"], 1)
+    b = _in_subprocess(args["lines"], args["kw"], 1, pre=pre)
+    return dict(violated=(a != b), observed=[a, b], detail="clean process %r vs process that constructed another anonymizer first %r" % (a, b))
+
+
+@register("nosalt")
+def nosalt(fam, args):
+    import logging
+    recs = []
+
+    class H(logging.Handler):
+        def emit(self, r):
+            recs.append(r)
+    root = logging.getLogger()
+    h = H()
+    old = root.manager.disable
+    logging.disable(logging.NOTSET)
+    root.addHandler(h)
+    try:
+        _reseed_passlib()
+        fa = fam.files.FileAnonymizer(salt=None, **args["kw"])
+        o1 = io.StringIO()
+        fa.anonymize_io(io.StringIO("".join(args["lines"])), o1)
+    finally:
+        root.removeHandler(h)
+        logging.disable(old)
+    salts = [r.args[0] for r in recs if r.levelno >= logging.WARNING and r.args and "salt" in str(r.msg)]
+    if not salts:
+        return dict(violated=True, observed=None, detail="generated salt not reported")
+    _reseed_passlib()
+    fb = fam.files.FileAnonymizer(salt=salts[0], **args["kw"])
+    o2 = io.StringIO()
+    fb.anonymize_io(io.StringIO("".join(args["lines"])), o2)
+    return dict(violated=(o1.getvalue() != o2.getvalue()), observed=[o1.getvalue(), o2.getvalue()], detail="reported salt %r" % salts[0])
